@@ -116,6 +116,7 @@ def generate(rng: random.Random, tier: str) -> dict:
         params = [{"shape": [max(2, gsize), 4], "dtype": dtype, "init_seed": rng.randrange(1 << 30), "init_scale": 1.0} for _ in range(S)]
         groups = [{"params": list(range(S)), "overrides": {}}]
         config["max_preconditioner_dim"] = 2
+    c06.mix_dtypes(rng, params, dtype)
     trace = {"schema": 1, "property": ID, "engine": "world", "config": config, "groups": groups, "params": params, "world": w, "schedule_seed": rng.randrange(1 << 30), "schedule": None}
     n_events = rng.choice([1, 2, 3, 4, 6, 8] + ([12, 16] if tier == "thorough" else []))
     style = gen.gen_presence_style(rng, len(params))
